@@ -32,6 +32,30 @@ Theorem C06_parse_roundtrip : forall eof_pos eof_errs ts d,
   ParseDocument eof_pos eof_errs false ts = Out (Some d) [].
 Proof. exact parse_roundtrip. Qed.
 
+(** The parser decides the grammar: accepted = the layouts of well-formed trees whose derivation
+    fits under the recursion limit, without lexical errors ... *)
+Theorem C06_parse_accepts_exactly : forall eof_pos eof_errs ts d,
+  ParseDocument eof_pos eof_errs false ts = Out (Some d) [] <->
+  layout_of (tokens_document d) (map st_tok ts) = true /\ wf_document d = true /\
+  (depth_document d <= max_recursion)%Z /\ scanner_errors eof_errs ts = [].
+Proof. exact parse_accepts_exactly. Qed.
+
+(** ... everything else is rejected with at least one error (no partial or truncated tree) ... *)
+Theorem C06_parse_rejects_rest : forall eof_pos eof_errs ts,
+  (forall d, ~ (layout_of (tokens_document d) (map st_tok ts) = true /\ wf_document d = true /\
+                (depth_document d <= max_recursion)%Z)) ->
+  exists es, ParseDocument eof_pos eof_errs false ts = Out None es /\ es <> [].
+Proof. exact parse_rejects_rest. Qed.
+
+(** ... and the model's fuel ([S (length ts)]) is never exhausted, on any input. *)
+Theorem C06_parse_total : forall eof_pos eof_errs ts,
+  ParseDocument eof_pos eof_errs false ts <> OOF.
+Proof. exact parse_total. Qed.
+
+Theorem C06_parse_value_total : forall eof_pos eof_errs ts,
+  ParseValue eof_pos eof_errs ts <> OOF.
+Proof. exact parse_value_total. Qed.
+
 (** Also beside lexical errors: whenever a tree is returned it is the tree of the whole token
     sequence, and the reported errors are exactly the scanner's, in order. *)
 Theorem C06_parse_document_tree : forall eof_pos eof_errs ts d es,
@@ -90,6 +114,11 @@ Theorem C06_roundtrip_refuted_before_fix :
   exists es, ParseDocument p0 [] true (wide_tokens 1000) = Out None es.
 Proof. exact wide_rejected_before_fix. Qed.
 
+(** After the repair a flat selection set of ANY width is accepted. *)
+Theorem C06_wide_accepted_after_fix : forall n,
+  ParseDocument p0 [] false (wide_tokens (S n)) = Out (Some (wide_doc (S n))) [].
+Proof. exact wide_accepted_after_fix. Qed.
+
 Theorem C06_recursion_balanced_refuted_before_fix :
   exists d s', parse_document p0 [] true 5 (init [] (wide_tokens 1)) = Ok d s' /\ recur s' = 1%Z.
 Proof. exact recursion_unbalanced_before_fix. Qed.
@@ -101,6 +130,10 @@ Proof. exact value_truncated_before_fix. Qed.
 
 Print Assumptions C06_parse_sound.
 Print Assumptions C06_parse_roundtrip.
+Print Assumptions C06_parse_accepts_exactly.
+Print Assumptions C06_parse_rejects_rest.
+Print Assumptions C06_parse_total.
+Print Assumptions C06_parse_value_total.
 Print Assumptions C06_parse_document_tree.
 Print Assumptions C06_parse_error_located.
 Print Assumptions C06_parse_reject_has_error.
@@ -110,5 +143,6 @@ Print Assumptions C06_parse_value_tree.
 Print Assumptions C06_parse_value_roundtrip.
 Print Assumptions C06_parse_value_error_located.
 Print Assumptions C06_roundtrip_refuted_before_fix.
+Print Assumptions C06_wide_accepted_after_fix.
 Print Assumptions C06_recursion_balanced_refuted_before_fix.
 Print Assumptions C06_value_sound_refuted_before_fix.
